@@ -71,6 +71,15 @@ CHECKS["C02"] = dict(level="model_checking", ref="DESIGN.md 5 C02", tech=TECH,
          "and a leak scan of all returned bytes against the protected values.",
     note="Trusted: TLC, the driver, the leak scan (8-byte windows of values the driver knows: created, unwrapped, or "
          "read while legitimately readable). Side channels and C_DigestKey are not covered.")
+CHECKS["C07"] = dict(level="model_checking", ref="DESIGN.md 5 C07", tech=TECH,
+    text="P11Mech.tla states when an operation may start (usage attribute, Fits(op, mechanism, key kind) written from "
+         "the PKCS#11 mechanism definitions, CKA_ALLOWED_MECHANISMS, slots.mechanisms) and the always-authenticate "
+         "machine; TLC enumerates the finite table as the edges of MC_Mech; EVERY cell is executed on the library "
+         "(re-initialised per configuration) and TLC validates 'started OK => permitted' and 'output only after a "
+         "successful start / context login' on the recorded executions.",
+    note="Trusted: TLC, the driver's key material and mechanism parameters. Quick: 21 mechanisms x 3 configuration "
+         "kinds (about 160k cells); thorough: all 73 advertised mechanisms x 5 kinds x 16 usage patterns. A permitted "
+         "start may fail for other reasons (only-if); successes are counted in the evidence.")
 NA = {
     "C17": "memory safety and arbitrary byte-level inputs are outside what a TLA+ specification and trace validation can "
            "observe (DESIGN.md 5 C17); crashes met while replaying are reported under the property whose check ran",
